@@ -9,7 +9,7 @@ CONSTANTS
   Zeniths = {0, 1, 2, 3, 4, 5, 6, 7, 8, 9}
   HorizonIndex = 3
   Factors = {2, 5}
-  MaxLevel = 4
+  MaxLevel = 6
 CONSTRAINT LevelBound
 INVARIANT ShellsPartition
 INVARIANT ProbeShells
